@@ -54,6 +54,7 @@ module.exports = function (repo, loadPrelude) {
       return { prop: nm, name: nm, embedded: p[1] === '1', exported: p[2] === '1', typ: ref(p[3]), tag: U.hexToStr(p[4]) };
     });
     const pool = {};
+    let shared = {};
     function structCtor(nf) {
       return function (...args) { this.$val = this; this.$args = args; };
     }
@@ -95,6 +96,13 @@ module.exports = function (repo, loadPrelude) {
         return o;
       }
       if (c === 'v') return ifaceVal(p.slice(2, -1));
+      if (c === 'f') return p === 'fN' ? NaN : Number(p.slice(1));
+      if (c === 'c') { const q = p.slice(1).split('_').map(x => x === 'N' ? NaN : Number(x)); return new t(q[0], q[1]); }
+      if (c === 'w') { // w<k>[val]: ONE boxed interface value per key k, shared by every occurrence within the operation
+        const i = p.indexOf('['); const key = p.slice(1, i);
+        if (!(key in shared)) shared[key] = ifaceVal(p.slice(i + 1, -1));
+        return shared[key];
+      }
       throw new Error('bad payload ' + p);
     }
     function splitTop(s) { // split on '.' at bracket depth 0
@@ -156,7 +164,9 @@ module.exports = function (repo, loadPrelude) {
           break;
         }
         case 'E': {
-          try { ans = env.interfaceIsEqual(ifaceVal(a[1]), ifaceVal(a[2])) ? 'true' : 'false'; }
+          shared = {};
+          try { const x = ifaceVal(a[1]); const y = a[2] === '=' ? x : ifaceVal(a[2]); // '=': the very same boxed object
+            ans = env.interfaceIsEqual(x, y) ? 'true' : 'false'; }
           catch (e) { if (U.isRuntimeError(e) && /comparing uncomparable type/.test(e.message)) ans = 'panic'; else throw e; }
           break;
         }
